@@ -70,32 +70,32 @@ func init() {
 	}
 	replacements = append(replacements, rsaSPKI, edSPKI)
 	for _, o := range [][]int{
-		{1, 2, 156, 10197, 1, 301},       // SM2 curve / key
-		{1, 2, 156, 10197, 1, 501},       // SM2 with SM3
-		{1, 2, 156, 10197, 1, 401},       // SM3
-		{1, 2, 156, 10197, 1, 104, 2},    // SM4-CBC
-		{1, 2, 156, 10197, 1, 104, 8},    // SM4-GCM
-		{1, 2, 156, 10197, 1, 301, 3},    // SM2 encryption
+		{1, 2, 156, 10197, 1, 301},        // SM2 curve / key
+		{1, 2, 156, 10197, 1, 501},        // SM2 with SM3
+		{1, 2, 156, 10197, 1, 401},        // SM3
+		{1, 2, 156, 10197, 1, 104, 2},     // SM4-CBC
+		{1, 2, 156, 10197, 1, 104, 8},     // SM4-GCM
+		{1, 2, 156, 10197, 1, 301, 3},     // SM2 encryption
 		{1, 2, 156, 10197, 6, 1, 4, 2, 1}, // SM data
 		{1, 2, 156, 10197, 6, 1, 4, 2, 2}, // SM signedData
 		{1, 2, 156, 10197, 6, 1, 4, 2, 3}, // SM envelopedData
-		{1, 2, 840, 113549, 1, 7, 1},     // data
-		{1, 2, 840, 113549, 1, 7, 2},     // signedData
-		{1, 2, 840, 113549, 1, 7, 3},     // envelopedData
-		{1, 2, 840, 113549, 1, 7, 6},     // encryptedData
-		{1, 2, 840, 113549, 1, 1, 1},     // rsaEncryption
-		{1, 2, 840, 113549, 1, 1, 11},    // sha256WithRSA
-		{1, 2, 840, 113549, 1, 1, 10},    // RSASSA-PSS
-		{1, 2, 840, 10045, 2, 1},         // id-ecPublicKey
-		{1, 2, 840, 10045, 4, 3, 2},      // ecdsa-with-SHA256
-		{1, 2, 840, 10045, 4, 3, 4},      // ecdsa-with-SHA512
-		{1, 2, 840, 10045, 3, 1, 7},      // prime256v1
-		{1, 3, 132, 0, 33},               // secp224r1
-		{1, 3, 132, 0, 34},               // secp384r1
-		{1, 3, 132, 0, 35},               // secp521r1
-		{1, 3, 101, 112},                 // Ed25519
-		{2, 16, 840, 1, 101, 3, 4, 2, 1}, // SHA-256
-		{1, 3, 14, 3, 2, 26},             // SHA-1
+		{1, 2, 840, 113549, 1, 7, 1},      // data
+		{1, 2, 840, 113549, 1, 7, 2},      // signedData
+		{1, 2, 840, 113549, 1, 7, 3},      // envelopedData
+		{1, 2, 840, 113549, 1, 7, 6},      // encryptedData
+		{1, 2, 840, 113549, 1, 1, 1},      // rsaEncryption
+		{1, 2, 840, 113549, 1, 1, 11},     // sha256WithRSA
+		{1, 2, 840, 113549, 1, 1, 10},     // RSASSA-PSS
+		{1, 2, 840, 10045, 2, 1},          // id-ecPublicKey
+		{1, 2, 840, 10045, 4, 3, 2},       // ecdsa-with-SHA256
+		{1, 2, 840, 10045, 4, 3, 4},       // ecdsa-with-SHA512
+		{1, 2, 840, 10045, 3, 1, 7},       // prime256v1
+		{1, 3, 132, 0, 33},                // secp224r1
+		{1, 3, 132, 0, 34},                // secp384r1
+		{1, 3, 132, 0, 35},                // secp521r1
+		{1, 3, 101, 112},                  // Ed25519
+		{2, 16, 840, 1, 101, 3, 4, 2, 1},  // SHA-256
+		{1, 3, 14, 3, 2, 26},              // SHA-1
 	} {
 		replacements = append(replacements, oidDER(o...))
 	}
